@@ -295,7 +295,23 @@ class OpaqueBytes:
     pass
 
 
+def _hl_new(name, data=b"", **k):
+    """hashlib.new(name[, data]): the same models as the named constructors; other algorithms run natively on concrete data"""
+    n = str(name).lower().replace("-", "")
+    if n == "sha256":
+        return _HashObj(sha256, "sha256", data)
+    if n == "sha512":
+        return _HashObj(sha512, "sha512", data)
+    if n in ("ripemd160", "rmd160"):
+        return _HashObj(ripemd160_uf, "ripemd160", data)
+    from .values import is_sym
+    if is_sym(data):
+        raise Unsupported("hashlib.new(%r) on symbolic data" % (name,))
+    return hashlib.new(name, data, **k)
+
+
 def install_hash_models():
+    instrument.register(hashlib.new, _hl_new)
     instrument.register(hashlib.sha256, _hl_sha256)
     instrument.register(hashlib.sha512, _hl_sha512)
     instrument.register(_hmac.new, _hmac_new)
